@@ -1,5 +1,5 @@
 ------------------------------ MODULE Trace_Media ------------------------------
-(* R = [universe : Seq(image record), traces : Seq([id, steps : Seq([a, out, t]), saved : Seq([at, t])])]
+(* R = [universe : Seq(image record), traces : Seq([id, init : t (the deck as opened), steps : Seq([a, out, t]), saved : Seq([at, t, mem])])]
    saved[..].t is the media projection of a saved zip (media members only, pics = the last in-memory pics).      *)
 EXTENDS Media, Json, IOUtils, SequencesExt
 VARIABLE dummy
@@ -7,10 +7,11 @@ R == JsonDeserialize(IOEnv.TRACE_FILE)
 TraceU == R.universe
 T == R.traces
 Empty == [media |-> <<>>, pics |-> <<>>]
-StepBad(tr, k) == LET s == IF k = 1 THEN Empty ELSE tr.steps[k-1].t IN
+StepBad(tr, k) == LET s == IF k = 1 THEN tr.init ELSE tr.steps[k-1].t IN
                   Failing(s, tr.steps[k].a, tr.steps[k].t) \cup (IF tr.steps[k].out = "ok" THEN {} ELSE {"OperationSucceeds"})
-SavedNames == {"OnePartPerImage", "DistinctNames", "ExtAndTypeOfActualFormat", "StoredBytesExact"}
+SavedNames == {"OnePartPerImage", "DistinctNames", "ExtAndTypeOfActualFormat", "StoredBytesExact", "PicturesShowTheirImage"}
 SavedBad(tr, i) == {n \in SavedNames : ~Holds(n, Empty, [op |-> "save", img |-> 0, args |-> "none"], tr.saved[i].t)}
+                   \cup (IF tr.saved[i].t.dup THEN {"DistinctNames"} ELSE {})   \* two zip members of one name
                    \cup (IF {m.img : m \in SeqSet(tr.saved[i].t.media)} = {m.img : m \in SeqSet(tr.saved[i].mem.media)} THEN {} ELSE {"SavedMediaAsInMemory"})
 Bad(tr) == {[at |-> "step", k |-> k, failing |-> StepBad(tr, k)] : k \in {j \in DOMAIN tr.steps : StepBad(tr, j) # {}}}
       \cup {[at |-> "saved", k |-> tr.saved[i].at, failing |-> SavedBad(tr, i)] : i \in {j \in DOMAIN tr.saved : SavedBad(tr, j) # {}}}
